@@ -537,7 +537,21 @@ func prependParentDirPath(path string) string {
 }
 
 func replaceParentDirsWithPlaceholder(pathSegment string) string {
-	return strings.ReplaceAll(pathSegment, "../", parentDirPlaceHolder)
+	// Only replace whole ".." path segments, and not the ending of folder
+	// names that happen to end with two dots (such as "dir../file")
+	segments := strings.Split(pathSegment, "/")
+	replaced := ""
+	for i, segment := range segments {
+		isLast := i == len(segments)-1
+		if segment == ".." && !isLast {
+			replaced += parentDirPlaceHolder
+		} else if !isLast {
+			replaced += segment + "/"
+		} else {
+			replaced += segment
+		}
+	}
+	return replaced
 }
 
 func replacePlaceholdersWithParentDirs(pathSegment string) string {
